@@ -51,6 +51,9 @@ Mutate ==
             \/ \E k \in 1..N : ents' = InsertAt(ents, i, Foreign(k)) /\ UNCHANGED info          \* replay from another segment
             \/ \E k \in 1..N : ents' = InsertAt(ents, i, Orig[k]) /\ UNCHANGED info             \* duplicate / re-insert
             \/ i < Len(ents) /\ ents' = SubSeq(ents, 1, i) /\ UNCHANGED info                    \* drop the tail
+            \* another valid signature over the same input (ECDSA: (r, n-s), or the signer signing twice):
+            \* a different signing act with the same content and context
+            \/ ents' = Set(i, [ents[i] EXCEPT !.id = 300 + nmut * 10 + i]) /\ UNCHANGED info
             \* a key certified for ANOTHER AS, honestly named in the key id
             \/ ents' = Set(i, Resign(i, "z", Good("z"))) /\ UNCHANGED info
             \* another AS's key, but the key id names the entry's AS (no such chain exists)
